@@ -383,6 +383,15 @@ def fixed_inputs(iid):
         "tpl/Any.j2": USER_TEMPLATE,
         "tplg/Any.j2": PROBE_TEMPLATE,
     }
+    # names that common "friendlier" comparison keys confuse (digit runs compared by value, leading zeros, separators dropped): with such
+    # a key a sort is no longer total and the order of the tied entries falls back to whatever the unordered container yields
+    cmp_names = ["Cell1", "Cell01", "Cell001", "Cell2", "Cell10", "Cell_1", "Cell1x", "Cell1_0"]
+    for n in cmp_names:
+        files["in/vroot/cmp/%s.1.0.dsdl" % n] = "uint8 v\n@sealed\n"
+    files["in/vroot/cmp/Ver.1.2.dsdl"] = "uint8 v\n@extent 64\n"
+    files["in/vroot/cmp/Ver.1.10.dsdl"] = "uint8 v\nuint8 w\n@extent 64\n"
+    files["in/vroot/cmp/Pack.1.0.dsdl"] = ("".join("vroot.cmp.%s.1.0 f%d\n" % (n, i) for i, n in enumerate(cmp_names))
+                                           + "vroot.cmp.Ver.1.2 va\nvroot.cmp.Ver.1.10 vb\n@sealed\n")
     return Inputs(iid, "fixed", files, lookups=["extlib"])
 
 
